@@ -236,6 +236,15 @@ func SpellRoot(root string, n int) string {
 		return dir + "//" + base
 	case 4:
 		return dir + "/" + base + "/../" + base
+	case 5:
+		// the configured root is a symbolic link to the real folder (the operator keeps the files on another volume)
+		link := filepath.Join(dir, base+" (link)")
+		if _, err := os.Lstat(link); err != nil {
+			if err := os.Symlink(root, link); err != nil {
+				return root
+			}
+		}
+		return link
 	}
 	return root
 }
